@@ -1,9 +1,10 @@
 #!/bin/bash
 # Runs every seeded defect against the quick check of the property it breaks (and extra checks listed in
-# seeded/<id>/also.txt) and prints one line per seed. Usage: tools/seedmatrix.sh [seed ids...]
+# seeded/<id>/also.txt) and prints one line per seed. Usage: [PAR=n] tools/seedmatrix.sh [seed ids...]
 cd "$(dirname "$(readlink -f "$0")")/.."
 IDS="$@"; [ -z "$IDS" ] && IDS=$(ls seeded | grep -E '^C[0-9]+-[0-9]+$' | sort -V)
-for id in $IDS; do
+one() {
+  id=$1
   P=${id%-*}
   EXTRA=""; [ -f seeded/$id/also.txt ] && EXTRA=$(cat seeded/$id/also.txt)
   BASE=""; [ -f seeded/$id/base.txt ] && BASE=$(cat seeded/$id/base.txt)
@@ -14,4 +15,6 @@ for id in $IDS; do
     case "$rc" in 1) LINE="$LINE $c:CAUGHT";; 0) LINE="$LINE $c:missed";; *) LINE="$LINE $c:rc=$rc";; esac
   done
   echo "$id$LINE${BASE:+ (base $BASE)}"
-done
+}
+export -f one
+echo $IDS | tr ' ' '\n' | xargs -P ${PAR:-1} -I{} bash -c 'one {}'
